@@ -204,10 +204,34 @@ ASSUME Gen = "C27" =>
 (* C28: the configuration pairs of C24 that have to complete, each fresh and (every second one)
    followed by a resumed connection; the demanded outcome is the same for all: log = projection of
    the wire (Problems28 = {}). *)
-Cases28 == Number({ [x EXCEPT !.two = (x.c.tickets /\ x.s.tickets)] : x \in {y \in Honest24 : y.exp.mode = "must"} })
+\* scripted-peer inputs a zcrypto server never produces by itself:
+\*  (a) SCT lists of the ServerHello: every sequence of <= 3 SCTs over well-formed / truncated /
+\*      unknown-version / one-byte SCTs (TLS 1.0-1.2);
+\*  (b) TLS 1.2 ServerKeyExchange whose SignatureAndHashAlgorithm bytes are rewritten in flight to
+\*      every (hash, signature) pair of 6 x 4 values incl. unknown ones, for DHE_RSA and ECDHE suites,
+\*      against a client with InsecureSkipVerify (which continues past a DHE signature error).
+SctClasses == {"good1", "good2", "trunc", "badver", "short"}
+SctLists == { <<a>> : a \in SctClasses } \cup { <<a, b>> : a \in SctClasses, b \in SctClasses }
+            \cup { <<a, b, c>> : a \in {"good1", "trunc"}, b \in SctClasses, c \in SctClasses }
+Base28(v, suite, key, force) ==
+  [id |-> 0, down |-> 0, two |-> FALSE, ccert |-> FALSE, scts |-> <<>>, skip |-> FALSE, rwh |-> 0, rws |-> 0,
+   c |-> [min |-> v, max |-> v, suites |-> <<suite>>, alpn |-> <<>>, curves |-> <<>>, tickets |-> TRUE, force |-> force,
+          prefer |-> FALSE, key |-> "", auth |-> 0],
+   s |-> [min |-> v, max |-> v, suites |-> <<suite>>, alpn |-> <<>>, curves |-> <<>>, tickets |-> TRUE, force |-> FALSE,
+          prefer |-> FALSE, key |-> key, auth |-> 0]]
+Sct28 == { [Base28(12, 49199, "R", FALSE) EXCEPT !.scts = l] : l \in SctLists }
+         \cup { [Base28(11, 49171, "R", FALSE) EXCEPT !.scts = l] : l \in SctLists }
+Rw28 == { [Base28(12, su, "R", TRUE) EXCEPT !.skip = sk, !.rwh = h, !.rws = g] :
+            su \in {158, 51, 107, 49199}, sk \in BOOLEAN, h \in {1, 2, 4, 5, 6, 9}, g \in {1, 2, 3, 9} }
+Cases28 == Number(
+  { [x EXCEPT !.two = (x.c.tickets /\ x.s.tickets)] @@ [scts |-> <<>>, skip |-> FALSE, rwh |-> 0, rws |-> 0] :
+      x \in {y \in Honest24 : y.exp.mode = "must"} }
+  \cup { x @@ [exp |-> [mode |-> "scripted"]] : x \in Sct28 \cup Rw28 } )
 ASSUME Gen = "C28" =>
          /\ ndJsonSerialize("c28_cases.ndjson", Cases28)
-         /\ PrintT(<<"GENERATED", Len(Cases28), Cardinality({i \in 1..Len(Cases28) : Cases28[i].two})>>)
+         /\ PrintT(<<"GENERATED", Len(Cases28), Cardinality({i \in 1..Len(Cases28) : Cases28[i].two}),
+                     Cardinality({i \in 1..Len(Cases28) : Cases28[i].scts # <<>>}),
+                     Cardinality({i \in 1..Len(Cases28) : Cases28[i].rwh # 0})>>)
 
 -----------------------------------------------------------------------------
 (* C32: the adversary actions of TLSHandshakeMC (A_Corrupt, A_Alter, A_Drop, A_Insert, EnvClose)
